@@ -9,13 +9,26 @@ package detection
 
 //@ pred allOccur(t *topology.FunctionTopology, s Signature) = forall j in 0..len(s.IdentifyingFeatures.RequiredCalls) :: occurs(t, s.IdentifyingFeatures.RequiredCalls[j])
 
+// ---- C05 vocabulary.  topoHash(t): the topology hash as a deterministic function of the topology (trusted: the
+// hash function reads only the topology, which is not modified between indexing and matching).
+//@ ufunc topoHash(t *topology.FunctionTopology) string
+//@ pred patOccurs(t *topology.FunctionTopology, p string) = exists k in 0..len(t.StringLiterals) :: contains(lower(t.StringLiterals[k]), lower(p))
+//@ pred allPatternsOccur(t *topology.FunctionTopology, s Signature) = forall j in 0..len(s.IdentifyingFeatures.StringPatterns) :: patOccurs(t, s.IdentifyingFeatures.StringPatterns[j])
+// selfMatch: what indexing establishes and what matching needs for full confidence.
+//@ pred selfMatch(t *topology.FunctionTopology, s Signature) = s.TopologyHash == topoHash(t) && s.EntropyScore == t.EntropyScore && finite(s.EntropyTolerance) && s.EntropyTolerance > 0
+//@   && allOccur(t, s) && allPatternsOccur(t, s)
+// Case folding preserves the substring relation (assumption; exact for ASCII and for valid UTF-8 under Go's mapping).
+//@ axiom [casefold] forall a, b: string :: {contains(lower(a), lower(b))} contains(a, b) ==> contains(lower(a), lower(b))
+
 //@ func GenerateTopologyHash
 //@   trusted
+//@   ensures [C05.hash] result == topoHash(topo)
 
 //@ func MatchCalls
 //@   requires topo != nil
-//@   ensures [C08.veto] (exists j in 0..len(required) :: !occurs(topo, required[j])) <==> len(missing) > 0
-//@   ensures [C08.range] unit(score)
+//@   ensures [C08.veto] [C05.veto] (exists j in 0..len(required) :: !occurs(topo, required[j])) <==> len(missing) > 0
+//@   ensures [C08.range] [C05.range] unit(score)
+//@   ensures [C05.calls] len(required) > 0 && len(missing) == 0 ==> score == 1.0
 //@   loop 1 invariant 0 <= #i && #i <= len(required)
 //@   loop 1 invariant len(matched) + len(missing) == #i
 //@   loop 1 invariant (exists j in 0..#i :: !occurs(topo, required[j])) <==> len(missing) > 0
@@ -23,12 +36,15 @@ package detection
 
 //@ func MatchStrings
 //@   requires topo != nil
-//@   ensures [C08.range] unit(score)
+//@   ensures [C08.range] [C05.range] unit(score)
+//@   ensures [C05.strings] len(patterns) > 0 && (forall j in 0..len(patterns) :: patOccurs(topo, patterns[j])) ==> score == 1.0
 //@   loop 1 invariant 0 <= #i && #i <= len(patterns) && len(matched) <= #i
+//@   loop 1 invariant [C05.strings] (forall j in 0..#i :: patOccurs(topo, patterns[j])) ==> len(matched) == #i
+//@   loop 2 invariant [C05.strings] 0 <= #i && forall k in 0..#i :: !contains(lower(topo.StringLiterals[k]), patLower)
 
 //@ func ComputeTopologySimilarity
 //@   requires topo != nil
-//@   ensures [C08.range] unit(result)
+//@   ensures [C08.range] [C05.range] unit(result)
 //@   loop 1 invariant 0 <= #i && #i <= len(scores) && finite(total) && 0 <= total && total <= #i
 //@   loop 1 invariant forall j in 0..len(scores) :: unit(scores[j])
 
@@ -39,14 +55,30 @@ package detection
 //@   ensures [C08.id] result.SignatureID == sig.ID && result.SignatureName == sig.Name && result.MatchedFunction == funcName
 //@   loop 1 invariant 0 <= #i && #i <= len(scores) && finite(total) && 0 <= total && total <= #i
 //@   loop 1 invariant forall j in 0..len(scores) :: unit(scores[j])
+//@   ensures [C05.self] selfMatch(topo, sig) ==> result.Confidence == 1.0
+//@   loop 1 invariant [C05.self] selfMatch(topo, sig) ==> (forall j in 0..len(scores) :: scores[j] == 1.0) && total == #i
+
+//@ func HasReconnectLogic
+//@   requires topo != nil
+
+// Indexing a function produces a signature that the same function matches with full confidence.
+//@ func ExtractStringPatterns
+//@   protocol-only C10
+//@   deterministic
+//@   ghost src map[string]int
+//@   uses casefold
+//@   ensures [C05.patterns] forall j in 0..len(result) :: 0 <= src[result[j]] && src[result[j]] < len(literals) && contains(literals[src[result[j]]], result[j]) && caseFoldInstance(literals[src[result[j]]], result[j])
+//@   loop 1 update src = store(prev(src), trimOf(literals[prev(#i)], "\"'`"), prev(#i))
+//@   loop 1 invariant [C05.patterns] 0 <= #i && #i <= len(literals) && forall p in keys(patterns) :: 0 <= src[p] && src[p] < #i && contains(literals[src[p]], p)
+//@   loop 2 invariant [C05.patterns] (sref(result) == 0 || fresh(result)) && forall j in 0..len(result) :: result[j] in patterns
 
 // ---- C10: signatures derived from a topology do not depend on map iteration order
 //@ func IndexFunction
 //@   noframe
 //@   protocol-only C10
 //@   deterministic
+//@   uses casefold
+//@   requires [C05.index] topo != nil && finite(topo.EntropyScore)
+//@   ensures [C05.index] selfMatch(topo, result)
+//@   loop 1 invariant [C05.index] forall j in 0..len(requiredCalls) :: requiredCalls[j] in topo.CallSignatures
 
-//@ func ExtractStringPatterns
-//@   noframe
-//@   protocol-only C10
-//@   deterministic
